@@ -2,11 +2,15 @@
 use hxlib::*;
 
 mod c26;
+mod c29;
+mod c30;
 
 fn main() {
   let args = parse_args();
   match args.prop.as_str() {
     "C26" => drive(&args, c26::gen, c26::run),
+    "C29" => drive(&args, c29::gen, c29::run),
+    "C30" => drive(&args, c30::gen, c30::run),
     p => {
       eprintln!("unknown property {p}");
       std::process::exit(2);
